@@ -188,6 +188,7 @@ func init() {
 		partStepThrough(c, a, []string{"compadd-vs-compadd", "join", "entityadd"}) // (every request is answered: nothing wedges)
 		partSignedLatency(c, a)                                                    // (a refused request in the middle of a measurement changes nothing)
 		partReceiptAnswers(c, a)
+		partRealRegistryAcrossReregistration(c, a) // a join by the id the server gave out is answered with the session, whatever happened to the server id since
 		return a.finish(c)
 	}
 	registry["C05"] = func(c *check.Ctx) int {
